@@ -31,7 +31,7 @@ func notEvaluated(keys []string) bool {
 }
 
 func runC03(c *ctx, r *Report) error {
-	r.Rule = "three hand-written workflows that lint clean and together use every section and key of the workflow syntax (all events with filters and inputs/secrets/outputs, permissions, env, defaults, concurrency, every job key incl. strategy.matrix with include/exclude, container and services with credentials/env/ports/volumes/options, environment, runs-on group/labels, reusable-workflow calls, every step key incl. docker entrypoint/args); for EVERY scalar that is a mapping value or sequence element, the YAML tree is rewritten with that scalar replaced by a malformed placeholder (4 shapes), re-emitted and linted by the real linter: a diagnostic must sit on that scalar, and be an [expression] syntax error wherever the value is an expression template; non-trivial = distinct (file, key path, placeholder) mutations"
+	r.Rule = "three hand-written workflows that lint clean and together use every section and key of the workflow syntax (all events with filters and inputs/secrets/outputs, permissions, env, defaults, concurrency, every job key incl. strategy.matrix with include/exclude, container and services with credentials/env/ports/volumes/options, environment, runs-on group/labels, reusable-workflow calls, every step key incl. docker entrypoint/args); for EVERY scalar that is a mapping value or sequence element, the YAML tree is rewritten with that scalar replaced by a malformed placeholder (4 shapes), re-emitted and linted by the real linter: a diagnostic must sit on that scalar, and be an [expression] syntax error wherever the value is an expression template; the same again with the key/value pair moved to every other position of its mapping (sibling order); non-trivial = distinct (file, key path, placeholder) mutations"
 	type miss struct{ key, desc string }
 	sitesTotal, sitesEvaluated := 0, 0
 	for _, name := range []string{"a.yml", "b.yml", "c.yml"} {
@@ -64,55 +64,97 @@ func runC03(c *ctx, r *Report) error {
 			}
 			gk := genericKeyPath(v.keys)
 			r.hist("site:" + strings.SplitN(gk, ".", 2)[0])
-			for _, bad := range badPlaceholders {
-				m := cloneNode(root)
-				n := nodeAt(m, v.path)
-				n.Kind, n.Tag, n.Value, n.Style = yaml.ScalarNode, "!!str", bad, 0
-				n.Content = nil
-				src, err := emitYAML(m)
-				if err != nil {
-					return err
+			// sibling configurations: besides the order as written, the key/value pair is moved to every other
+			// position of its mapping (a parser that threads state from one key to the next is order sensitive)
+			type variant struct {
+				pos  int // target pair index, -1 = as written
+				path ypath
+			}
+			variants := []variant{{-1, v.path}}
+			if par := nodeAt(root, v.path[:len(v.path)-1]); par != nil && par.Kind == yaml.MappingNode && len(par.Content) > 2 {
+				for k := 0; k < len(par.Content)/2; k++ {
+					if 2*k+1 != v.path[len(v.path)-1] {
+						variants = append(variants, variant{k, append(append(ypath{}, v.path[:len(v.path)-1]...), 2*k+1)})
+					}
 				}
-				// where did the scalar land?
-				root2, err := parseYAML(src)
-				if err != nil {
-					return fmt.Errorf("re-emitted YAML does not parse: %v", err)
-				}
-				n2 := nodeAt(root2, v.path)
-				if n2 == nil || n2.Value != bad {
-					return fmt.Errorf("lost track of mutated node at %v", v.keys)
-				}
-				errs, lerr := lintSrc(name, src)
-				r.Evaluations++
-				r.nontrivial(name + ":" + strings.Join(v.keys, ".") + ":" + bad)
-				mk := func(note string) Case {
-					return Case{Op: "lint-mutated", Input: map[string]string{"file": name, "key_path": strings.Join(v.keys, "."), "placeholder": bad, "yaml": src, "scalar_at": fmt.Sprintf("%d:%d", n2.Line, n2.Column)}, Note: note}
-				}
-				if lerr != nil {
-					r.Crashes = append(r.Crashes, mk(lerr.Error()))
-					continue
-				}
-				width := len(bad) + 2
-				at, atExpr := false, false
-				for _, e := range errs {
-					if e.Line == n2.Line && e.Column >= n2.Column && e.Column <= n2.Column+width {
-						at = true
-						if e.Kind == "expression" {
-							atExpr = true
+			}
+			for vi, va := range variants {
+				for bi, bad := range badPlaceholders {
+					if vi > 0 && bi > 0 && (c.quick || bi > 1) {
+						continue
+					}
+					m := cloneNode(root)
+					if va.pos >= 0 {
+						par := nodeAt(m, v.path[:len(v.path)-1])
+						i := v.path[len(v.path)-1]
+						kn, vn := par.Content[i-1], par.Content[i]
+						rest := append(append([]*yaml.Node{}, par.Content[:i-1]...), par.Content[i+1:]...)
+						nc := append([]*yaml.Node{}, rest[:2*va.pos]...)
+						nc = append(nc, kn, vn)
+						nc = append(nc, rest[2*va.pos:]...)
+						par.Content = nc
+						if vi > 0 && bi == 0 {
+							// the reordered workflow itself must still be clean, otherwise the premise does not hold
+							if csrc, err := emitYAML(m); err != nil {
+								return err
+							} else if cerrs, cerr := lintSrc(name, csrc); cerr != nil || len(cerrs) > 0 {
+								r.hist("reordered-base-not-clean")
+								break
+							}
 						}
 					}
-				}
-				key := "placeholder-unchecked:" + gk
-				if !at {
-					var others []string
-					for _, e := range errs {
-						others = append(others, e.Error())
+					vpath := va.path
+					n := nodeAt(m, vpath)
+					n.Kind, n.Tag, n.Value, n.Style = yaml.ScalarNode, "!!str", bad, 0
+					n.Content = nil
+					src, err := emitYAML(m)
+					if err != nil {
+						return err
 					}
-					r.finding(key, fmt.Sprintf("malformed placeholder at %s (%d:%d) produces no diagnostic located at that scalar", strings.Join(v.keys, "."), n2.Line, n2.Column), mk(strings.Join(others, " || ")))
-				} else if evaluated && !atExpr && strings.HasPrefix(bad, "${{") {
-					// (a placeholder embedded in other text is only a template where a string is expected; at
-					// bool / number / mapping-or-expression positions it is a type error of the parser)
-					r.finding("placeholder-no-syntax-error:"+gk, fmt.Sprintf("malformed placeholder at %s is diagnosed, but not as an expression syntax error", strings.Join(v.keys, ".")), mk(""))
+					// where did the scalar land?
+					root2, err := parseYAML(src)
+					if err != nil {
+						return fmt.Errorf("re-emitted YAML does not parse: %v", err)
+					}
+					n2 := nodeAt(root2, vpath)
+					if n2 == nil || n2.Value != bad {
+						return fmt.Errorf("lost track of mutated node at %v", v.keys)
+					}
+					errs, lerr := lintSrc(name, src)
+					r.Evaluations++
+					r.nontrivial(fmt.Sprintf("%s:%s:%s:%d", name, strings.Join(v.keys, "."), bad, va.pos))
+					if va.pos >= 0 {
+						r.hist("reordered")
+					}
+					mk := func(note string) Case {
+						return Case{Op: "lint-mutated", Input: map[string]string{"file": name, "key_path": strings.Join(v.keys, "."), "placeholder": bad, "yaml": src, "scalar_at": fmt.Sprintf("%d:%d", n2.Line, n2.Column)}, Note: note}
+					}
+					if lerr != nil {
+						r.Crashes = append(r.Crashes, mk(lerr.Error()))
+						continue
+					}
+					width := len(bad) + 2
+					at, atExpr := false, false
+					for _, e := range errs {
+						if e.Line == n2.Line && e.Column >= n2.Column && e.Column <= n2.Column+width {
+							at = true
+							if e.Kind == "expression" {
+								atExpr = true
+							}
+						}
+					}
+					key := "placeholder-unchecked:" + gk
+					if !at {
+						var others []string
+						for _, e := range errs {
+							others = append(others, e.Error())
+						}
+						r.finding(key, fmt.Sprintf("malformed placeholder at %s (%d:%d) produces no diagnostic located at that scalar", strings.Join(v.keys, "."), n2.Line, n2.Column), mk(strings.Join(others, " || ")))
+					} else if evaluated && !atExpr && strings.HasPrefix(bad, "${{") {
+						// (a placeholder embedded in other text is only a template where a string is expected; at
+						// bool / number / mapping-or-expression positions it is a type error of the parser)
+						r.finding("placeholder-no-syntax-error:"+gk, fmt.Sprintf("malformed placeholder at %s is diagnosed, but not as an expression syntax error", strings.Join(v.keys, ".")), mk(""))
+					}
 				}
 			}
 		}
